@@ -296,3 +296,245 @@ theorem csvDataCols_fields (rowNo : Nat) : ∀ (cells : List (Option DataCell)) 
           exact h2
 
 end C16
+
+namespace C16
+open Tab.TextTab Tab.Render
+
+/-! ### the summary (geomean) row -/
+
+/-- the string ToText/ToCSV show as the summary delta of a non-baseline column -/
+def ratioStr (s : SumCell) : Bytes := if s.hasRatio then s.ratio else [0x3F]
+def ratioOpts (s : SumCell) : List Opt := if s.hasRatio then [.right] else []
+
+/-- the texttab cells ToText adds for the summary of logical column `exp` -/
+def sumPlaced (r : Nat) (wl : List Bytes) (exp : Nat) (s : SumCell) : List Cell :=
+  (if s.hasSummary then [mkCell r (textStartCol exp) s.sumText [.right]] else []) ++
+  (if exp > 0 then [mkCell r (textStartCol exp + 3) (ratioStr s) (ratioOpts s)] else []) ++
+  [mkCell r (textStartCol (exp + 1) - 1) (joinSp (s.warns.foldl warnStep (wl, [])).2) []]
+
+theorem run_opt_block (b : Bool) (k : Nat) (v : Bytes) (opts : List Opt) (t : Table) (hk : t.curCol ≤ k) :
+    ∃ t', runOps t (if b then [Op.col k, Op.span 1 v opts] else []) = some t' ∧
+      t'.cells = t.cells ++ (if b then [mkCell t.curRow k v opts] else []) ∧
+      t'.curRow = t.curRow ∧ t'.curCol = (if b then k + 1 else t.curCol) := by
+  cases b with
+  | false => exact ⟨t, rfl, by simp, rfl, rfl⟩
+  | true =>
+    obtain ⟨t', h1, h2, h3, h4⟩ := runOps_col_spans [(v, opts)] t k hk
+    exact ⟨t', by simpa [spansOps] using h1, by simpa [placed] using h2, h3, by simpa using h4⟩
+
+theorem sumCellOps_eq (wl : List Bytes) (exp : Nat) (s : SumCell) :
+    (sumCellOps wl exp s).2 =
+      (if s.hasSummary then [Op.col (textStartCol exp), Op.span 1 s.sumText [.right]] else []) ++
+      ((if decide (exp > 0) then [Op.col (textStartCol exp + 3), Op.span 1 (ratioStr s) (ratioOpts s)] else []) ++
+       (if true then [Op.col (textStartCol (exp + 1) - 1),
+          Op.span 1 (joinSp (s.warns.foldl warnStep (wl, [])).2) []] else [])) := by
+  unfold sumCellOps warnCell ratioStr ratioOpts
+  by_cases h : exp > 0 <;> cases s.hasRatio <;> simp [h]
+
+theorem sumCell_cells (wl : List Bytes) (exp : Nat) (s : SumCell) (t : Table) (hk : t.curCol ≤ textStartCol exp) :
+    ∃ t', runOps t (sumCellOps wl exp s).2 = some t' ∧ t'.cells = t.cells ++ sumPlaced t.curRow wl exp s ∧
+      t'.curRow = t.curRow ∧ t'.curCol = textStartCol (exp + 1) := by
+  obtain ⟨t1, a1, a2, a3, a4⟩ := run_opt_block s.hasSummary (textStartCol exp) s.sumText [.right] t hk
+  have hc1 : t1.curCol ≤ textStartCol exp + 1 := by rw [a4]; split <;> omega
+  obtain ⟨t2, b1, b2, b3, b4⟩ := run_opt_block (decide (exp > 0)) (textStartCol exp + 3) (ratioStr s) (ratioOpts s) t1 (by omega)
+  have hgw := textStartCol_succ exp
+  have hc2 : t2.curCol ≤ textStartCol (exp + 1) - 1 := by
+    rw [b4, hgw]
+    unfold textGroupWidth
+    by_cases h : exp > 0
+    · have h0 : (exp == 0) = false := by simp; omega
+      simp [h, h0]
+    · have h0 : exp = 0 := by omega
+      subst h0; simp; omega
+  obtain ⟨t3, c1, c2, c3, c4⟩ := run_opt_block true (textStartCol (exp + 1) - 1)
+    (joinSp (s.warns.foldl warnStep (wl, [])).2) [] t2 hc2
+  refine ⟨t3, ?_, ?_, ?_, ?_⟩
+  · rw [sumCellOps_eq, runOps_append, a1, Option.bind_some, runOps_append, b1, Option.bind_some]
+    exact c1
+  · rw [c2, b2, a2, b3, a3]
+    unfold sumPlaced
+    by_cases h : exp > 0 <;> simp [h]
+  · rw [c3, b3, a3]
+  · rw [c4]
+    simp only [if_true]
+    have : 1 ≤ textStartCol (exp + 1) := by unfold textStartCol; split <;> omega
+    omega
+
+def sumPlacedRow (r : Nat) : List Bytes → Nat → List (Option SumCell) → List Cell
+  | _, _, [] => []
+  | wl, exp, none :: rest => sumPlacedRow r wl (exp + 1) rest
+  | wl, exp, some s :: rest => sumPlaced r wl exp s ++ sumPlacedRow r (sumCellOps wl exp s).1 (exp + 1) rest
+
+theorem sumCols_cells : ∀ (cells : List (Option SumCell)) (wl : List Bytes) (exp : Nat) (t : Table),
+    t.curCol ≤ textStartCol exp →
+    ∃ t', runOps t (sumColsOps wl exp cells).2 = some t' ∧
+      t'.cells = t.cells ++ sumPlacedRow t.curRow wl exp cells ∧ t'.curRow = t.curRow := by
+  intro cells
+  induction cells with
+  | nil => intro wl exp t _; exact ⟨t, rfl, by simp [sumPlacedRow], rfl⟩
+  | cons oc rest ih =>
+    intro wl exp t hcur
+    cases oc with
+    | none =>
+      have := ih wl (exp + 1) t (Nat.le_trans hcur (textStartCol_mono (Nat.le_succ _)))
+      simpa [sumColsOps, sumPlacedRow] using this
+    | some s =>
+      obtain ⟨t1, h1, h2, h3, h4⟩ := sumCell_cells wl exp s t hcur
+      obtain ⟨t2, g1, g2, g3⟩ := ih (sumCellOps wl exp s).1 (exp + 1) t1 (by rw [h4]; exact Nat.le_refl _)
+      refine ⟨t2, ?_, ?_, ?_⟩
+      · simp only [sumColsOps]; rw [runOps_append, h1]; exact g1
+      · rw [g2, h2, h3]; simp [sumPlacedRow]
+      · rw [g3, h3]
+
+theorem sumPlacedRow_mem (r : Nat) : ∀ (cells : List (Option SumCell)) (wl : List Bytes) (exp i : Nat) (s : SumCell),
+    cells[i]? = some (some s) →
+    ∃ wl', ∀ x ∈ sumPlaced r wl' (exp + i) s, x ∈ sumPlacedRow r wl exp cells := by
+  intro cells
+  induction cells with
+  | nil => intro wl exp i s h; simp at h
+  | cons oc rest ih =>
+    intro wl exp i s h
+    cases i with
+    | zero =>
+      simp only [List.getElem?_cons_zero, Option.some.injEq] at h
+      subst h
+      exact ⟨wl, fun x hx => by simp only [sumPlacedRow, Nat.add_zero, List.mem_append] at hx ⊢; exact Or.inl hx⟩
+    | succ i =>
+      have h' : rest[i]? = some (some s) := by simpa using h
+      cases oc with
+      | none =>
+        obtain ⟨wl', hw⟩ := ih wl (exp + 1) i s h'
+        refine ⟨wl', fun x hx => ?_⟩
+        rw [show exp + (i + 1) = exp + 1 + i by omega] at hx
+        simpa [sumPlacedRow] using hw x hx
+      | some s0 =>
+        obtain ⟨wl', hw⟩ := ih (sumCellOps wl exp s0).1 (exp + 1) i s h'
+        refine ⟨wl', fun x hx => ?_⟩
+        rw [show exp + (i + 1) = exp + 1 + i by omega] at hx
+        simp only [sumPlacedRow, List.mem_append]
+        exact Or.inr (hw x hx)
+
+/-! #### ToCSV -/
+
+/-- what ToCSV appends for the summary of logical column `exp` once the record has been padded to
+the column's first field: the geomean (or a blank that keeps the position), and for a
+non-baseline column a blank CI field and the delta / "?" under "vs base" -/
+def sumTail (exp : Nat) (s : SumCell) : List Bytes :=
+  if exp > 0 then [if s.hasSummary then s.sumCsv else [], [], ratioStr s]
+  else if s.hasSummary then [s.sumCsv] else []
+
+def csvSumCell (exp : Nat) (row : List Bytes) (s : SumCell) : List Bytes :=
+  let row1 := clearTo row (csvStartCol exp)
+  let row2 := if s.hasSummary then row1 ++ [s.sumCsv] else row1
+  if exp > 0 then clearTo row2 (csvStartCol exp + 2) ++ [if s.hasRatio then s.ratio else [0x3F]] else row2
+
+theorem csvSumCols_cons (rowNo : Nat) (row w : List Bytes) (exp : Nat) (s : SumCell) (rest : List (Option SumCell)) :
+    (csvSumCols rowNo row w exp (some s :: rest)).1 =
+      (csvSumCols rowNo (csvSumCell exp row s)
+        (w ++ csvWarn (clearTo row (csvStartCol exp)).length rowNo s.warns) (exp + 1) rest).1 := by
+  simp [csvSumCols, csvSumCell]
+
+theorem csvSumCell_eq (exp : Nat) (row : List Bytes) (s : SumCell) (h : row.length ≤ csvStartCol exp) :
+    csvSumCell exp row s = clearTo row (csvStartCol exp) ++ sumTail exp s := by
+  have hl := clearTo_length row (csvStartCol exp) h
+  unfold csvSumCell sumTail ratioStr
+  by_cases he : exp > 0
+  · simp only [he, if_true]
+    cases hs : s.hasSummary
+    · simp only [Bool.false_eq_true, if_false]
+      simp only [clearTo] at hl ⊢
+      rw [hl]
+      simp [List.replicate_succ]
+    · simp only [if_true]
+      simp only [clearTo] at hl ⊢
+      rw [List.length_append, hl]
+      simp [List.replicate_succ]
+  · simp only [he, if_false]
+    cases s.hasSummary <;> simp
+
+theorem getD_clearTo_gap (row : List Bytes) (col j : Nat) (h : row.length ≤ j) : (clearTo row col).getD j [] = [] := by
+  unfold clearTo
+  simp only [List.getD_eq_getElem?_getD, List.getElem?_append_right h, List.getElem?_replicate]
+  split <;> simp
+
+theorem sumTail_length (exp : Nat) (s : SumCell) : (sumTail exp s).length ≤ csvGroupWidth exp := by
+  unfold sumTail csvGroupWidth
+  by_cases he : exp > 0
+  · have h0 : (exp == 0) = false := by simp; omega
+    simp [he, h0]
+  · have h0 : exp = 0 := by omega
+    subst h0
+    cases s.hasSummary <;> simp
+
+/-- ToCSV's summary record: earlier fields are never overwritten, skipped positions are blank,
+and the summary of logical column `exp + i` sits at `csvStartCol (exp + i) + j` as `sumTail` says
+(`[]` where `sumTail` has no entry) -/
+theorem csvSumCols_fields (rowNo : Nat) : ∀ (cells : List (Option SumCell)) (row w : List Bytes) (exp : Nat),
+    row.length ≤ csvStartCol exp →
+    (∀ j, j < row.length → (csvSumCols rowNo row w exp cells).1.getD j [] = row.getD j []) ∧
+    (∀ j, row.length ≤ j → j < csvStartCol exp → (csvSumCols rowNo row w exp cells).1.getD j [] = []) ∧
+    ∀ i s, cells[i]? = some (some s) → ∀ j, j < csvGroupWidth (exp + i) →
+      (csvSumCols rowNo row w exp cells).1.getD (csvStartCol (exp + i) + j) [] = (sumTail (exp + i) s).getD j [] := by
+  intro cells
+  induction cells with
+  | nil =>
+    intro row w exp _
+    refine ⟨fun _ _ => rfl, ?_, fun i s h => by simp at h⟩
+    intro j hj _
+    simp only [csvSumCols, List.getD_eq_getElem?_getD, List.getElem?_eq_none hj, Option.getD_none]
+  | cons oc rest ih =>
+    intro row w exp hlen
+    cases oc with
+    | none =>
+      have hle : csvStartCol exp ≤ csvStartCol (exp + 1) := csvStartCol_mono (Nat.le_succ exp)
+      have := ih row w (exp + 1) (Nat.le_trans hlen hle)
+      refine ⟨by simpa [csvSumCols] using this.1, ?_, ?_⟩
+      · intro j h1 h2
+        have := this.2.1 j h1 (by omega)
+        simpa [csvSumCols] using this
+      · intro i s hi j hj
+        cases i with
+        | zero => simp at hi
+        | succ i =>
+          have h2 := this.2.2 i s (by simpa using hi) j (by rw [show exp + 1 + i = exp + (i + 1) by omega]; exact hj)
+          rw [show exp + 1 + i = exp + (i + 1) by omega] at h2
+          simpa [csvSumCols] using h2
+    | some s0 =>
+      have hl1 := clearTo_length row (csvStartCol exp) hlen
+      have heq := csvSumCell_eq exp row s0 hlen
+      have hl3 : (csvSumCell exp row s0).length ≤ csvStartCol (exp + 1) := by
+        rw [heq, List.length_append, hl1, csvStartCol_succ]
+        have := sumTail_length exp s0
+        omega
+      have hl3' : (csvSumCell exp row s0).length = csvStartCol exp + (sumTail exp s0).length := by
+        rw [heq, List.length_append, hl1]
+      have hih := ih (csvSumCell exp row s0)
+        (w ++ csvWarn (clearTo row (csvStartCol exp)).length rowNo s0.warns) (exp + 1) hl3
+      rw [csvSumCols_cons]
+      refine ⟨?_, ?_, ?_⟩
+      · intro j hj
+        rw [hih.1 j (by omega), heq, getD_append_left _ _ _ (by omega)]
+        unfold clearTo
+        exact getD_append_left _ _ _ hj
+      · intro j h1 h2
+        rw [hih.1 j (by omega), heq, getD_append_left _ _ _ (by omega)]
+        exact getD_clearTo_gap row _ j h1
+      · intro i s hi j hj
+        cases i with
+        | zero =>
+          simp only [List.getElem?_cons_zero, Option.some.injEq] at hi
+          subst hi
+          simp only [Nat.add_zero] at hj ⊢
+          by_cases hjt : j < (sumTail exp s0).length
+          · rw [hih.1 _ (by omega), heq]
+            have := getD_append_right (clearTo row (csvStartCol exp)) (sumTail exp s0) j
+            rw [hl1] at this
+            exact this
+          · rw [hih.2.1 _ (by omega) (by rw [csvStartCol_succ]; omega)]
+            simp only [List.getD_eq_getElem?_getD, List.getElem?_eq_none (Nat.le_of_not_lt hjt), Option.getD_none]
+        | succ i =>
+          have h2 := hih.2.2 i s (by simpa using hi) j (by rw [show exp + 1 + i = exp + (i + 1) by omega]; exact hj)
+          rw [show exp + 1 + i = exp + (i + 1) by omega] at h2
+          exact h2
+
+end C16
